@@ -2,7 +2,7 @@ use marrow::view::UnionView;
 use serde::de::{DeserializeSeed, Deserializer, EnumAccess, Visitor};
 
 use crate::internal::{
-    error::{fail, set_default, Context, Error, Result},
+    error::{fail, set_default, try_, Context, ContextSupport, Error, Result},
     schema::get_strategy_from_metadata,
     utils::{ChildName, Offset},
 };
@@ -79,26 +79,29 @@ impl<'de> RandomAccessDeserializer<'de> for EnumDeserializer<'de> {
         visitor: V,
         idx: usize,
     ) -> Result<V::Value> {
-        if idx >= self.types.len() {
-            fail!("Exhausted deserializer");
-        }
-        let type_id = self.types[idx];
-        let offset = self.offsets[idx].try_into_usize()?;
-        let Some((name, variant)) = usize::try_from(type_id)
-            .ok()
-            .and_then(|type_id| self.variants.get(type_id))
-        else {
-            fail!(
-                "Invalid type id {type_id} in union with {num_variants} variants",
-                num_variants = self.variants.len()
-            );
-        };
+        try_(|| {
+            if idx >= self.types.len() {
+                fail!("Exhausted deserializer");
+            }
+            let type_id = self.types[idx];
+            let offset = self.offsets[idx].try_into_usize()?;
+            let Some((name, variant)) = usize::try_from(type_id)
+                .ok()
+                .and_then(|type_id| self.variants.get(type_id))
+            else {
+                fail!(
+                    "Invalid type id {type_id} in union with {num_variants} variants",
+                    num_variants = self.variants.len()
+                );
+            };
 
-        visitor.visit_enum(VariantItemDeserializer {
-            deserializer: variant.at(offset),
-            type_id,
-            name,
+            visitor.visit_enum(VariantItemDeserializer {
+                deserializer: variant.at(offset),
+                type_id,
+                name,
+            })
         })
+        .ctx(self)
     }
 }
 
